@@ -94,10 +94,20 @@ def handle? (f : List String) : Option String :=
   | ["index", h] => some (asset C18Arc.index h)
   | ["indexq", h, q] =>
     match Bytes.ofHexFast h, Bytes.ofHexFast q with
-    | some w, some _ =>
-      -- a file that does not parse gives `none`; `exists` / `find_entry` / `calculate_hash` on a
-      -- parsed index never crash (`c18_index_hash_total`) and must agree with each other: `ok`
-      some (answer "=" (if (C18Arc.index w).isOk then "ok" else (C18Arc.index w).cls))
+    | some w, some path =>
+      -- a file that does not parse gives `none`; on a parsed index `exists` / `find_entry` /
+      -- `calculate_hash` never crash (`c18_index_hash_total`) and agree with each other.  For an ASCII
+      -- path the model also predicts the answer (`e0` / `e1`); Unicode lower-casing is not modelled,
+      -- there the specified answer is "no crash" (`ok`).
+      let r := C18Arc.index w
+      match r.out with
+      | .ok ix =>
+        if path.all (· < 0x80) then
+          match (C18Arc.existsAscii ix path).out with
+          | .ok b => some (answer ("indexq " ++ h ++ " " ++ q ++ " cls") (if b then "e1" else "e0"))
+          | _ => some (answer ("indexq " ++ h ++ " " ++ q ++ " cls") (C18Arc.existsAscii ix path).cls)
+        else some (answer ("indexq " ++ h ++ " " ++ q ++ " any") "ok")
+      | _ => some (answer ("indexq " ++ h ++ " " ++ q ++ " cls") r.cls)
     | _, _ => some bad
   | ["repo", n] =>
     match Bytes.ofHexFast n with
